@@ -36,6 +36,8 @@ struct V {
     file: String,
     fn_depth: usize,
     module: Vec<String>,
+    // cfg predicates of the enclosing inline modules / impl blocks / traits within this file
+    enclosing: Vec<Vec<String>>,
 }
 
 impl V {
@@ -49,6 +51,21 @@ impl V {
                 self.emit(a.span().start().line, pos, &attr_text(a));
             }
         }
+    }
+    fn own_cfgs(attrs: &[syn::Attribute]) -> Vec<String> {
+        attrs.iter().filter(|a| a.path().is_ident("cfg")).map(attr_text).collect()
+    }
+    /// gate record: a function-like item (or module declaration / re-export) with its own cfgs and those of the enclosing scopes
+    fn gate(&self, attrs: &[syn::Attribute], kind: &str, name: &str, line: usize, extra: &str) {
+        if self.fn_depth > 0 { return; }
+        let own = Self::own_cfgs(attrs);
+        let enc: Vec<String> = self.enclosing.iter().flatten().cloned().collect();
+        println!(
+            "{{\"k\":\"gate\",\"file\":{},\"line\":{},\"module\":{},\"kind\":{},\"name\":{},\"own\":[{}],\"enclosing\":[{}],\"extra\":{}}}",
+            esc(&self.file), line, esc(&self.module.join("::")), esc(kind), esc(name),
+            own.iter().map(|c| esc(c)).collect::<Vec<_>>().join(","),
+            enc.iter().map(|c| esc(c)).collect::<Vec<_>>().join(","), esc(extra)
+        );
     }
     fn item(&self, attrs: &[syn::Attribute], kind: &str, name: &str, line: usize) {
         let cfgs: Vec<String> = attrs.iter().filter(|a| a.path().is_ident("cfg")).map(attr_text).collect();
@@ -65,31 +82,47 @@ impl<'a> Visit<'a> for V {
         let pos = if self.fn_depth > 0 { "stmt-item" } else { "item" };
         let line = i.span().start().line;
         match i {
-            syn::Item::Fn(f) => { self.chk(&f.attrs, pos); self.item(&f.attrs, "fn", &f.sig.ident.to_string(), line); }
+            syn::Item::Fn(f) => { self.chk(&f.attrs, pos); self.item(&f.attrs, "fn", &f.sig.ident.to_string(), line); self.gate(&f.attrs, "fn", &f.sig.ident.to_string(), line, ""); }
             syn::Item::Struct(f) => { self.chk(&f.attrs, pos); self.item(&f.attrs, "struct", &f.ident.to_string(), line); }
             syn::Item::Enum(f) => { self.chk(&f.attrs, pos); self.item(&f.attrs, "enum", &f.ident.to_string(), line); }
             syn::Item::Const(f) => { self.chk(&f.attrs, pos); self.item(&f.attrs, "const", &f.ident.to_string(), line); }
             syn::Item::Static(f) => { self.chk(&f.attrs, pos); self.item(&f.attrs, "static", &f.ident.to_string(), line); }
             syn::Item::Type(f) => { self.chk(&f.attrs, pos); self.item(&f.attrs, "type", &f.ident.to_string(), line); }
             syn::Item::Trait(f) => { self.chk(&f.attrs, pos); self.item(&f.attrs, "trait", &f.ident.to_string(), line); }
-            syn::Item::Mod(f) => { self.chk(&f.attrs, pos); self.item(&f.attrs, "mod", &f.ident.to_string(), line); }
+            syn::Item::Mod(f) => { self.chk(&f.attrs, pos); self.item(&f.attrs, "mod", &f.ident.to_string(), line); self.gate(&f.attrs, "mod", &f.ident.to_string(), line, &format!("{}{}", if f.content.is_some() { "inline" } else { "file" }, if matches!(f.vis, syn::Visibility::Public(_)) { "|pub" } else { "" })); }
             syn::Item::Impl(f) => { self.chk(&f.attrs, pos); }
-            syn::Item::Use(f) => { self.chk(&f.attrs, pos); }
+            syn::Item::Use(f) => {
+                self.chk(&f.attrs, pos);
+                if matches!(f.vis, syn::Visibility::Public(_)) || matches!(f.vis, syn::Visibility::Restricted(_)) {
+                    let t = &f.tree;
+                    self.gate(&f.attrs, "use", "", line, &quote_tree(t));
+                }
+            }
             syn::Item::Macro(f) => { self.chk(&f.attrs, pos); }
             syn::Item::ExternCrate(f) => { self.chk(&f.attrs, pos); }
             _ => {}
         }
         if let syn::Item::Mod(m) = i {
             self.module.push(m.ident.to_string());
+            self.enclosing.push(Self::own_cfgs(&m.attrs));
             visit::visit_item(self, i);
+            self.enclosing.pop();
             self.module.pop();
+        } else if let syn::Item::Impl(m) = i {
+            self.enclosing.push(Self::own_cfgs(&m.attrs));
+            visit::visit_item(self, i);
+            self.enclosing.pop();
+        } else if let syn::Item::Trait(m) = i {
+            self.enclosing.push(Self::own_cfgs(&m.attrs));
+            visit::visit_item(self, i);
+            self.enclosing.pop();
         } else {
             visit::visit_item(self, i);
         }
     }
     fn visit_impl_item(&mut self, i: &'a syn::ImplItem) {
         match i {
-            syn::ImplItem::Fn(f) => self.chk(&f.attrs, "impl-item"),
+            syn::ImplItem::Fn(f) => { self.chk(&f.attrs, "impl-item"); self.gate(&f.attrs, "impl-fn", &f.sig.ident.to_string(), f.span().start().line, ""); }
             syn::ImplItem::Const(f) => self.chk(&f.attrs, "impl-item"),
             syn::ImplItem::Type(f) => self.chk(&f.attrs, "impl-item"),
             _ => {}
@@ -98,7 +131,7 @@ impl<'a> Visit<'a> for V {
     }
     fn visit_trait_item(&mut self, i: &'a syn::TraitItem) {
         match i {
-            syn::TraitItem::Fn(f) => self.chk(&f.attrs, "trait-item"),
+            syn::TraitItem::Fn(f) => { self.chk(&f.attrs, "trait-item"); self.gate(&f.attrs, "trait-fn", &f.sig.ident.to_string(), f.span().start().line, ""); }
             syn::TraitItem::Const(f) => self.chk(&f.attrs, "trait-item"),
             syn::TraitItem::Type(f) => self.chk(&f.attrs, "trait-item"),
             _ => {}
@@ -152,13 +185,23 @@ impl<'a> Visit<'a> for V {
     }
 }
 
+fn quote_tree(t: &syn::UseTree) -> String {
+    match t {
+        syn::UseTree::Path(p) => format!("{}::{}", p.ident, quote_tree(&p.tree)),
+        syn::UseTree::Name(n) => n.ident.to_string(),
+        syn::UseTree::Rename(r) => format!("{} as {}", r.ident, r.rename),
+        syn::UseTree::Glob(_) => "*".to_string(),
+        syn::UseTree::Group(g) => format!("{{{}}}", g.items.iter().map(quote_tree).collect::<Vec<_>>().join(", ")),
+    }
+}
+
 fn main() {
     let mut n = 0usize;
     let mut errs = 0usize;
     for p in std::env::args().skip(1) {
         let s = match std::fs::read_to_string(&p) { Ok(s) => s, Err(e) => { println!("{{\"k\":\"error\",\"file\":{},\"text\":{}}}", esc(&p), esc(&e.to_string())); errs += 1; continue } };
         match syn::parse_file(&s) {
-            Ok(f) => { let mut v = V { file: p.clone(), fn_depth: 0, module: vec![] }; v.visit_file(&f); n += 1; }
+            Ok(f) => { let mut v = V { file: p.clone(), fn_depth: 0, module: vec![], enclosing: vec![] }; v.visit_file(&f); n += 1; }
             Err(e) => { println!("{{\"k\":\"error\",\"file\":{},\"text\":{}}}", esc(&p), esc(&e.to_string())); errs += 1; }
         }
     }
